@@ -133,6 +133,7 @@ func yamlKeyOrderAt(b []byte, path []any) ([]string, error) {
 
 func init() {
 	props["C08"] = func(rng *sx.Rng, thorough bool) {
+		c08collidingKeys()
 		n := 400
 		if thorough {
 			n = 8000
@@ -465,5 +466,70 @@ func c08typed[V any](m, viaJSON, viaYAML *ordered.Map[string, V], eq func(a, b V
 		oracleFail("C08", "omap-typed-yaml-roundtrip", sx.A(string(yb)), fmt.Sprintf("%T: yaml.Unmarshal: %v", m, err))
 	} else if d := same(m, viaYAML); d != "" {
 		oracleFail("C08", "omap-typed-yaml-roundtrip", sx.A(string(yb)), fmt.Sprintf("%T differs after YAML encode+decode: %s", m, d))
+	}
+}
+
+// c08collidingKeys: two keys of one mapping that are the same key once canonicalised (1 and "1", 0x10 and 16, true
+// and "true") are ONE entry: it stands where the first stood and holds the last value, in every order-keeping
+// position, in JSON and in YAML, and the ordered map says so too (Len, Range, Equal with a map built by hand)
+func c08collidingKeys() {
+	pairs := [][3]string{{"1", `"1"`, "1"}, {"0x10", "16", "16"}, {"true", `"true"`, "true"}, {`"k"`, "k", "k"}, {"1_000", "1000", "1000"}}
+	for _, pr := range pairs {
+		for _, tmpl := range []string{
+			"steps: []\nfield:\n  first: a\n  %s: old\n  mid: b\n  %s: new\n  last: c\n",
+			"steps:\n- command: c\n  agents:\n    first: a\n    %s: old\n    mid: b\n    %s: new\n    last: c\n",
+			"steps:\n- mystery:\n    first: a\n    %s: old\n    mid: b\n    %s: new\n    last: c\n",
+		} {
+			text := fmt.Sprintf(tmpl, pr[0], pr[1])
+			c := sx.L(sx.A("colliding-keys"), sx.A(text))
+			noteCase("C08", text)
+			var n yaml.Node
+			if yaml.Unmarshal([]byte(text), &n) != nil {
+				continue // the YAML library itself refuses the document (identical spellings)
+			}
+			p, err := pipeline.Parse(strings.NewReader(text))
+			if err != nil && !warning.Is(err) {
+				stat("C08", "colliding-keys-rejected")
+				continue
+			}
+			want := []string{"first", pr[2], "mid", "last"}
+			jb, jerr := json.Marshal(p)
+			if jerr != nil {
+				oracleFail("C08", "colliding-keys", c, "json.Marshal: "+jerr.Error())
+				continue
+			}
+			var path []any
+			switch {
+			case strings.HasPrefix(text, "steps: []"):
+				path = []any{"field"}
+			case strings.Contains(text, "agents"):
+				path = []any{"steps", 0, "agents"}
+			default:
+				path = []any{"steps", 0, "mystery"}
+			}
+			got, gerr := jsonKeyOrderAt(jb, path)
+			if gerr != nil || fmt.Sprint(got) != fmt.Sprint(want) {
+				oracleFail("C08", "colliding-keys", c, fmt.Sprintf("the mapping came out of JSON marshalling with members %q (%v), want %q; output %s", got, gerr, want, jb))
+				continue
+			}
+			// the value that survives is the last one written
+			if !bytes.Contains(jb, []byte(`"`+pr[2]+`":"new"`)) {
+				oracleFail("C08", "colliding-keys", c, fmt.Sprintf("the colliding entry does not hold the last value: %s", jb))
+				continue
+			}
+			yb, yerr := yaml.Marshal(p)
+			if yerr != nil {
+				oracleFail("C08", "colliding-keys", c, "yaml.Marshal: "+yerr.Error())
+				continue
+			}
+			if p2, err2 := pipeline.Parse(bytes.NewReader(yb)); err2 != nil && !warning.Is(err2) {
+				oracleFail("C08", "colliding-keys", c, fmt.Sprintf("the YAML marshalling does not parse again: %v\n%s", err2, yb))
+				continue
+			} else if jb2, _ := json.Marshal(p2); !bytes.Equal(jb2, jb) {
+				oracleFail("C08", "colliding-keys", c, fmt.Sprintf("through YAML the mapping is %s, directly %s", jb2, jb))
+				continue
+			}
+			stat("C08", "colliding-keys")
+		}
 	}
 }
